@@ -87,6 +87,26 @@ pub fn seed_base() -> u64 {
 }
 
 /// worker: seeds base+i for i in lo..hi with i % nw == w
+/// Pin this worker process to one of the CPUs it may use.  Every simulated
+/// invocation runs on a fresh (joined) thread; keeping parent and child on one
+/// CPU makes that hand-over a plain context switch.  Affects speed only.
+pub fn pin_to_cpu(w: u64) {
+    unsafe {
+        let mut set: libc::cpu_set_t = std::mem::zeroed();
+        if libc::sched_getaffinity(0, std::mem::size_of::<libc::cpu_set_t>(), &mut set) != 0 {
+            return;
+        }
+        let allowed: Vec<usize> = (0..libc::CPU_SETSIZE as usize).filter(|&c| libc::CPU_ISSET(c, &set)).collect();
+        if allowed.is_empty() {
+            return;
+        }
+        let c = allowed[(w as usize) % allowed.len()];
+        let mut one: libc::cpu_set_t = std::mem::zeroed();
+        libc::CPU_SET(c, &mut one);
+        libc::sched_setaffinity(0, std::mem::size_of::<libc::cpu_set_t>(), &one);
+    }
+}
+
 pub fn worker(prop: &str, profile: &str, base: u64, lo: u64, hi: u64, w: u64, nw: u64, hash_every: u64) {
     if profile == "spawn" {
         return spawn_worker(prop, base, lo, hi, w, nw);
@@ -94,6 +114,7 @@ pub fn worker(prop: &str, profile: &str, base: u64, lo: u64, hi: u64, w: u64, nw
     if profile == "C07sweep" {
         return sweep_worker(prop, base, lo, hi, w, nw);
     }
+    pin_to_cpu(w);
     let pf = Profile::for_property(profile);
     let known: Vec<(String, String)> = load_findings().findings.iter().filter(|f| f.status == "known").map(|f| (f.property.clone(), f.code.clone())).collect();
     let sb = Sandbox::new(&format!("w{}", w));
@@ -172,6 +193,7 @@ pub fn worker(prop: &str, profile: &str, base: u64, lo: u64, hi: u64, w: u64, nw
 /// C07 crash-point enumeration: every (log write, bytes persisted) pair of one invocation
 /// of each sampled history.
 fn sweep_worker(prop: &str, base: u64, lo: u64, hi: u64, w: u64, nw: u64) {
+    pin_to_cpu(w);
     let sb = Sandbox::new(&format!("x{}", w));
     let mut sum = WorkerSummary::default();
     let mut tk: BTreeSet<u64> = BTreeSet::new();
@@ -485,6 +507,10 @@ pub fn check(prop: &str, tier: &str) -> i32 {
     if prop == "C16" || prop == "C05" {
         batches.push(Batch { profile: "spawn".into(), lo: 0, hi: env_u64("VERIF_SPAWN_RUNS", if quick { 3000 } else { 60_000 }) });
     }
+    if prop == "C01" {
+        // "completed successfully" as decided from a real wait status (exit codes, signals)
+        batches.push(Batch { profile: "spawn".into(), lo: 0, hi: env_u64("VERIF_SPAWN_RUNS", if quick { 1500 } else { 30_000 }) });
+    }
     let mut total = WorkerSummary::default();
     let mut tk: BTreeSet<u64> = BTreeSet::new();
     let mut ntk: BTreeSet<u64> = BTreeSet::new();
@@ -682,7 +708,7 @@ pub fn check(prop: &str, tier: &str) -> i32 {
             "known_findings_hit": known_lines,
             "replays": replay_paths,
             "components": {
-                "real": ["n2::run::run (argument parsing, load, parse, eval, canon, graph, db reader/writer, work loop, pools, hash, task::Runner + run_task, depfile parser, showIncludes filter, progress_dumb, summary)", "kernel tmpfs for every file n2 or a command touches", "process_posix::run_command with real /bin/sh children (C16 real-spawn batch only)"],
+                "real": ["n2::run::run (argument parsing, load, parse, eval, canon, graph, db reader/writer, work loop, pools, hash, task::Runner + run_task, depfile parser, showIncludes filter, progress_dumb, summary)", "kernel tmpfs for every file n2 or a command touches", "process_posix::run_command with real /bin/sh children (real-spawn batch of C01, C05 and C16 only)"],
                 "stub": ["subprocess (scripted executor behind process_posix::run_command)", "OS threads (stored closures run by the simulator)", "std::sync::mpsc (per-sender queues interleaved by the simulator)", "main.rs (error print + exit code mapping replicated)", "wall clock (mtimes set from a logical clock)"]
             }
         },
